@@ -161,8 +161,11 @@ def gen_state(rng, w, h, density=None, label="random"):
     if legacy and ver["major"] * 100 + ver["minor"] >= 0xFFFF:
         ver["major"] = 654
     S = dict(w=w, h=h, root=list(root), grid=grid, chips=chips, ver=ver,
-             vbase=h32(SYSRAM_BASE + 0x4000 + 0x80 * rng.randrange(0, 32)),
              iobuf_size=rng.choice([16, 20, 64, 100, 300]), vcpus=[], blocks=[], diags=[], label=label)
+    # (the per-core status blocks do not sit at the same address on every chip)
+    common = SYSRAM_BASE + 0x4000 + 0x80 * rng.randrange(0, 32)
+    for c in chips:
+        c["vbase"] = h32(common if rng.random() < 0.3 else SYSRAM_BASE + 0x4000 + 0x80 * rng.randrange(0, 32))
     return S
 
 
@@ -238,7 +241,7 @@ def configure_sim(S, rng, extra_p2p=()):
         ch.ip = tuple(c["ip"])
         ch.local_eth = tuple(c["leth"])
         ch.info_junk = rng.randrange(1 << 32) if rng.random() < 0.3 else 0
-        ch.vcpu_base = u32(S["vbase"])
+        ch.vcpu_base = u32(c["vbase"])
         sim.sync_sv(ch)
     sim.set_unresponsive(unresp)
     sim.version = (ver["major"], ver["minor"], ver["patch"])
@@ -486,12 +489,12 @@ def small_state(rng, pattern, shuffle_mem):
         chips.append(dict(x=i, y=0, nc=nc, states=states, links=links,
                           sdram=h32(rng.choice([100, 200]) if shuffle_mem else 100),
                           sram=h32(rng.choice([7, 9]) if shuffle_mem else 7), rtr=rng.choice([1023, 5]),
-                          eth=False, ip=[0, 0, 0, 0], leth=[0, 0]))
+                          eth=False, ip=[0, 0, 0, 0], leth=[0, 0], vbase=h32(SYSRAM_BASE + 0x4000 + 0x900 * (i % 3))))
     grid = [[i + 1] for i in range(n)] if n else [[0]]
     return dict(w=w, h=1, root=[0, 0], grid=grid, chips=chips,
                 ver=dict(legacy=True, major=1, minor=0, patch=0, labels=[], name=[120], bufsize=256, date=[0, 0],
                          pcpu=list(range(18)), nul=True),
-                vbase=h32(SYSRAM_BASE + 0x4000), iobuf_size=16, vcpus=[], blocks=[], diags=[], label="small")
+                iobuf_size=16, vcpus=[], blocks=[], diags=[], label="small")
 
 
 def small_patterns(max_chips, max_cores):
